@@ -1281,4 +1281,148 @@ theorem gaussQuad_not_additive_witness :
       ≠ gaussQuad (fun x : ℚ => x * x) (1 / 100000) [[(0, 2)]] 0 2 := by
   decide +kernel
 
+/-! ### `GaussianQuadrature` as an object: setter histories -/
+
+theorem zip_fst_snd {β γ : Type} (r : List (β × γ)) : (r.map Prod.fst).zip (r.map Prod.snd) = r := by
+  induction r with
+  | nil => rfl
+  | cons x xs ih => simp [ih]
+
+/-- reading the flat cache with a moving offset is reading the rules one by one, provided rule `i` has `order + i`
+nodes (orders are consecutive and `roots_legendre(k)` returns `k` nodes) -/
+theorem gqEvalGo_eq_gqGo (f : α → α) (rtol c d : α) (rules : List (List (α × α))) (order : Nat)
+    (hlen : ∀ i (h : i < rules.length), (rules[i]).length = order + i) (old : Option α) (nv : α) :
+    gqEvalGo f rtol c d ((rules.map fun r => r.map Prod.fst).flatten) ((rules.map fun r => r.map Prod.snd).flatten)
+      order rules.length old nv = gqGo f rtol c d rules old nv := by
+  induction rules generalizing order old nv with
+  | nil => simp [gqEvalGo, gqGo]
+  | cons r rs ih =>
+    have hr : r.length = order := by simpa using hlen 0 (by simp)
+    have hrs : ∀ i (h : i < rs.length), (rs[i]).length = order + 1 + i := by
+      intro i h
+      have := hlen (i + 1) (by simp; omega)
+      simp only [List.getElem_cons_succ] at this
+      omega
+    simp only [List.map_cons, List.flatten_cons, List.length_cons, gqEvalGo, gqGo]
+    have t1 : (r.map Prod.fst ++ (rs.map fun r => r.map Prod.fst).flatten).take order = r.map Prod.fst := by
+      rw [List.take_left' (by simp [hr])]
+    have t2 : (r.map Prod.snd ++ (rs.map fun r => r.map Prod.snd).flatten).take order = r.map Prod.snd := by
+      rw [List.take_left' (by simp [hr])]
+    have d1 : (r.map Prod.fst ++ (rs.map fun r => r.map Prod.fst).flatten).drop order
+        = (rs.map fun r => r.map Prod.fst).flatten := by
+      rw [List.drop_left' (by simp [hr])]
+    have d2 : (r.map Prod.snd ++ (rs.map fun r => r.map Prod.snd).flatten).drop order
+        = (rs.map fun r => r.map Prod.snd).flatten := by
+      rw [List.drop_left' (by simp [hr])]
+    rw [t1, t2, d1, d2, zip_fst_snd]
+    cases old with
+    | none => simp only; exact ih (order + 1) hrs _ _
+    | some o =>
+      simp only
+      split_ifs
+      · rfl
+      · exact ih (order + 1) hrs _ _
+
+/-- the object invariant: valid parameters and a cache laid out for exactly the current order range -/
+structure GQInv (table : Nat → List (α × α)) (g : GQ α) : Prop where
+  min_pos : 1 ≤ g.minO
+  min_le_max : g.minO ≤ g.maxO
+  rtol_pos : 0 < g.rtol
+  roots_eq : g.roots = buildRoots table g.minO g.maxO
+  weights_eq : g.weights = buildWeights table g.minO g.maxO
+
+theorem gqNew_inv (table : Nat → List (α × α)) (mn mx : Nat) (rtol : α) (h1 : 1 ≤ mn) (h2 : mn ≤ mx) (h3 : 0 < rtol) :
+    GQInv table (gqNew table mn mx rtol) := ⟨h1, h2, h3, rfl, rfl⟩
+
+theorem gqSet_inv (table : Nat → List (α × α)) (g : GQ α) (hg : GQInv table g) (op : GQOp α) :
+    GQInv table (gqSet table g op).1 := by
+  cases op with
+  | setMin n =>
+    simp only [gqSet]
+    split_ifs with h1 h2
+    · exact hg
+    · exact hg
+    · push Not at h1 h2
+      exact ⟨by simp only; omega, by simp only; omega, hg.rtol_pos, rfl, rfl⟩
+  | setMax n =>
+    simp only [gqSet]
+    split_ifs with h1 h2
+    · exact hg
+    · exact hg
+    · push Not at h1 h2
+      exact ⟨hg.min_pos, by simp only; omega, hg.rtol_pos, rfl, rfl⟩
+  | setRtol r =>
+    simp only [gqSet]
+    split_ifs with h1
+    · exact hg
+    · exact ⟨hg.min_pos, hg.min_le_max, not_le.mp h1, hg.roots_eq, hg.weights_eq⟩
+
+/-- a setter that raises leaves the object untouched -/
+theorem gqSet_rejects_atomically (table : Nat → List (α × α)) (g : GQ α) (op : GQOp α)
+    (h : (gqSet table g op).2 = true) : (gqSet table g op).1 = g := by
+  cases op <;> simp only [gqSet] at h ⊢ <;> split_ifs at h ⊢ <;> simp_all
+
+/-- state after a history of setter calls -/
+def gqRun (table : Nat → List (α × α)) (g : GQ α) (ops : List (GQOp α)) : GQ α :=
+  ops.foldl (fun g op => (gqSet table g op).1) g
+
+theorem gq_history_inv (table : Nat → List (α × α)) (g : GQ α) (hg : GQInv table g) (ops : List (GQOp α)) :
+    GQInv table (gqRun table g ops) := by
+  induction ops generalizing g with
+  | nil => exact hg
+  | cons op ops ih => exact ih _ (gqSet_inv table g hg op)
+
+theorem gq_eq_fresh_of_inv (table : Nat → List (α × α)) (g : GQ α) (hg : GQInv table g) :
+    g = gqNew table g.minO g.maxO g.rtol := by
+  cases g
+  simp only [gqNew, GQ.mk.injEq, true_and]
+  exact ⟨hg.roots_eq, hg.weights_eq⟩
+
+/-- **construct → set\* → use = fresh(final): after any history of `min_order` / `max_order` / `relative_tolerance`
+setter calls (accepted or rejected) the integrator is the freshly constructed one with the final parameters** -/
+theorem gq_history_eq_fresh (table : Nat → List (α × α)) (g : GQ α) (hg : GQInv table g) (ops : List (GQOp α)) :
+    gqRun table g ops =
+      gqNew table (gqRun table g ops).minO (gqRun table g ops).maxO (gqRun table g ops).rtol :=
+  gq_eq_fresh_of_inv table _ (gq_history_inv table g hg ops)
+
+theorem rulesFor_length (table : Nat → List (α × α)) (mn mx : Nat) : (rulesFor table mn mx).length = mx + 1 - mn := by
+  simp [rulesFor]
+
+/-- … and its `evaluate` is the order-stepping rule over the orders `min … max` of the *current* parameters -/
+theorem gqEval_eq_gaussQuad (table : Nat → List (α × α)) (htab : ∀ k, (table k).length = k) (f : α → α) (g : GQ α)
+    (hg : GQInv table g) (a b : α) :
+    gqEval f g a b = gaussQuad f g.rtol (rulesFor table g.minO g.maxO) a b := by
+  unfold gqEval gaussQuad
+  rw [hg.roots_eq, hg.weights_eq]
+  unfold buildRoots buildWeights
+  have := gqEvalGo_eq_gqGo f g.rtol (0.5 * (a + b)) (0.5 * (b - a)) (rulesFor table g.minO g.maxO) g.minO
+    (by intro i h; simp [rulesFor, htab]) none 0
+  rw [rulesFor_length] at this
+  exact this
+
+theorem gqGo_const (f : α → α) (rtol c d J : α) (rules : List (List (α × α)))
+    (h : ∀ r ∈ rules, glRule f c d r = J) (old : Option α) (nv : α) :
+    gqGo f rtol c d rules old nv = if rules = [] then nv else J := by
+  induction rules generalizing old nv with
+  | nil => simp [gqGo]
+  | cons r rs ih =>
+    have hr : glRule f c d r = J := h r (by simp)
+    have hrs : ∀ r' ∈ rs, glRule f c d r' = J := fun r' hr' => h r' (by simp [hr'])
+    simp only [gqGo, hr, reduceCtorEq, if_false]
+    cases old with
+    | none =>
+      simp only; rw [ih hrs]; split_ifs <;> rfl
+    | some o =>
+      simp only
+      split_ifs
+      · rfl
+      · rw [ih hrs]; split_ifs <;> rfl
+
+/-- when every rule in the range integrates `f` exactly (Gauss–Legendre: polynomials of degree ≤ 2·min_order − 1),
+`evaluate` returns that exact value whatever the tolerance and wherever the order stepping stops -/
+theorem gaussQuad_exact (f : α → α) (rtol a b J : α) (rules : List (List (α × α))) (hne : rules ≠ [])
+    (h : ∀ r ∈ rules, glRule f (0.5 * (a + b)) (0.5 * (b - a)) r = J) : gaussQuad f rtol rules a b = J := by
+  unfold gaussQuad
+  rw [gqGo_const f rtol _ _ J rules h, if_neg hne]
+
 end Cherab.Lemmas.LineShape
